@@ -103,6 +103,18 @@ Shapes == {
      <<S(<<Spawn("j1"), NPoll, Read, PipeJoin("j1")>>)>>, G("pipe", <<Loop>>)),
   Sh("subshell-loop",   "( while :; do :; done )",
      <<P, Loop>>, NoG),
+  \* the same loop in a subshell whose status the parent inspects or discards: negated, as the condition of
+  \* if / until, and inside a C-style loop, which itself only ends on a fatal status
+  Sh("not-subshell-loop",   "! ( while :; do :; done )",
+     <<P, Loop>>, NoG),
+  Sh("if-subshell-loop",    "if ( while :; do :; done ); then :; fi",
+     <<P, P, Loop>>, NoG),
+  Sh("until-subshell-loop", "until ( while :; do :; done ); do :; done",
+     <<P, P, Loop>>, NoG),
+  Sh("cfor-not-subshell-loop", "for ((;;)); do ! ( while :; do :; done ); done",
+     <<P, P, Loop>>, NoG),
+  Sh("cfor-if-subshell-sleep", "for ((;;)); do if ( sleep 100 ); then :; fi; done",
+     <<P, S(<<NPoll, NPoll, NPoll, Exec(TRUE)>>)>>, NoG),
   Sh("cmdsubst-read",   ": \"$(read x)\"",
      <<S(<<NPoll, Read>>)>>, NoG),
   Sh("subshell-bg-sleep-wait", "( sleep 100 & wait )",
